@@ -542,6 +542,8 @@ theorem C19_exec_enum_name (σ : St) (cur g : Act) (rest : List Act) (xt x : Tok
     rfl
   · rw [run_tryCatch_err _ _ _ _ _ h2]
     simp only [rtDiag_kind, rtDiag_msg, beq_self_eq_true, Bool.and_self, if_true]
+    rw [run_bind_ok _ _ _ _ _ (run_get σ)]
+    simp only [(rtDiag_trace σ cur rest x.line x.col .notDefined h).2, beq_self_eq_true, if_true]
     rw [run_bind_ok _ _ _ _ _ hen]
     rfl
 
